@@ -102,6 +102,18 @@ def install(E):
         return None
     I[ZV + "Havoc"] = v_havoc
 
+    # harness-controlled wall clock: SetNow / AdvanceNow; time.Now() returns it
+    def v_setnow(E, name, args, ins):
+        E.ghost["now"] = args[0]
+        return None
+    I[ZV + "SetNow"] = v_setnow
+
+    def v_advnow(E, name, args, ins):
+        cur = E.ghost["now"]
+        E.ghost["now"] = ite(E.guard, I["(time.Time).Add"](E, name, [cur, args[0]], ins), cur)
+        return None
+    I[ZV + "AdvanceNow"] = v_advnow
+
     def v_string(E, name, args, ins):
         nm = E.input_name(args[0].py)
         t = z3.Const(nm, StrSort)
@@ -287,6 +299,8 @@ def install(E):
         h = E.cfg.get("time_now")
         if h is not None:
             return h(E, ins)
+        if "now" in E.ghost:
+            return E.ghost["now"]
         ns = E.new_input("time.Now", "int64", BV64)
         return mk_time_ns(E, ns)
     I["time.Now"] = t_now
